@@ -267,21 +267,41 @@ Print Assumptions C20_code_shouldSendNotification_is_model.
    details files and restarts at any position never touch it); [info_of tr i] is the folder info of
    dashboard i that tree [tr] determines. ==== *)
 From SigM Require Import DashTree.
-From SigP Require Import DashTreeFreshProofs DashTreeProofs.
+From SigP Require Import DashTreeProofs.
 
-Theorem C20_dash_tree_is_function_of_writes : forall ops s,
-  d_tree (d_run ops s) = fold_left tree_apply ops (d_tree s).
+Theorem C20_dash_tree_is_function_of_writes : forall same ops s,
+  d_tree (d_run_with same ops s) = fold_left tree_apply ops (d_tree s).
 Proof. exact dt_tree_of_writes. Qed.
 Print Assumptions C20_dash_tree_is_function_of_writes.
 
-(* full strength, every history (create / rename / move / delete of folders and dashboards at any
-   depth, reads and restarts anywhere): the path a read of a dashboard returns is the path of the tree *)
-Theorem C20_dash_tree_read_path_current : forall ops i fi cur,
+(* FULL STRENGTH, every history (create / rename / move / delete of folders and dashboards at any
+   depth, reads, listings and restarts anywhere): a read of a dashboard returns exactly the folder
+   info — folder id, folder name, path, breadcrumb ids and names — that the last writes determine.
+   True since the fix "refreshFolderMetadata compares the whole stored folder info with the tree";
+   the earlier behaviour is kept as the C20_prefix_dash_tree_* theorems below. *)
+Theorem C20_dash_tree_read_current : forall ops i fi cur,
   fst (get_dash (d_tree (d_run ops d_init)) (d_det (d_run ops d_init)) i) = Some fi ->
   info_of (tree_of_writes ops) i = Some cur ->
-  fi_path fi = fi_path cur.
-Proof. exact dt_get_path_current. Qed.
-Print Assumptions C20_dash_tree_read_path_current.
+  fi = cur.
+Proof. exact dt_read_current. Qed.
+Print Assumptions C20_dash_tree_read_current.
+
+(* non-vacuity: on the two histories that defeated the old test the stored info is NOT the current one
+   and the read returns the current one *)
+Theorem C20_dash_tree_read_current_on_witnesses :
+  fst (get_dash (d_tree (d_run wit_crumbs d_init)) (d_det (d_run wit_crumbs d_init)) 3) = info_of (tree_of_writes wit_crumbs) 3 /\
+  info_of (tree_of_writes wit_crumbs) 3 <> None /\
+  n_get 3 (d_det (d_run wit_crumbs d_init)) <> info_of (tree_of_writes wit_crumbs) 3 /\
+  fst (get_dash (d_tree (d_run wit_name d_init)) (d_det (d_run wit_name d_init)) 3) = info_of (tree_of_writes wit_name) 3 /\
+  n_get 3 (d_det (d_run wit_name d_init)) <> info_of (tree_of_writes wit_name) 3.
+Proof. exact dt_read_current_on_witnesses. Qed.
+Print Assumptions C20_dash_tree_read_current_on_witnesses.
+
+(* what a read returned is what the details file holds afterwards *)
+Theorem C20_dash_tree_read_stores_what_it_returns : forall tr det i fi,
+  fst (get_dash tr det i) = Some fi -> n_get i (snd (get_dash tr det i)) = Some fi.
+Proof. exact dt_read_stores_what_it_returns. Qed.
+Print Assumptions C20_dash_tree_read_stores_what_it_returns.
 
 Theorem C20_dash_tree_list_current : forall ops,
   snd (d_step (d_run ops d_init) ListAll) = DList (list_of (tree_of_writes ops)).
@@ -293,75 +313,31 @@ Theorem C20_dash_tree_contents_current : forall ops f,
 Proof. exact dt_contents_current. Qed.
 Print Assumptions C20_dash_tree_contents_current.
 
-(* FULL STATEMENT (fails, see the two _refuted theorems): for every history, a read of dashboard i returns
-     fi = cur, i.e. also the folder NAME and the BREADCRUMBS (ids and names) the tree determines.
-   refreshFolderMetadata compares path STRINGS only.  Guarded variants: *)
-
-(* (1) exact guard on the state: the stored path string differs from the current one, or nothing differs *)
-Theorem C20_dash_tree_read_current_guarded : forall s i fi cur,
-  detects s i = true ->
-  fst (get_dash (d_tree s) (d_det s) i) = Some fi ->
-  info_of (d_tree s) i = Some cur ->
-  fi = cur.
-Proof. exact dt_get_info_current_guarded. Qed.
-Print Assumptions C20_dash_tree_read_current_guarded.
-
-(* (2) guard on the history, evaluated along the run (hist_ok): operations get ids of the right kind,
-   the tree stays well formed, and every folder name is introduced ONCE in the history and has no '/'.
-   Then every read, after any sequence of renames and moves of the folder and of its ancestors, returns
-   exactly what the tree determines.  The harness stream "tree" satisfies the guard (checked in Coq for
-   every real history). *)
-Theorem C20_dash_tree_read_current_fresh_names : forall ops i fi cur,
-  hist_ok [] [] ops = true ->
-  fst (get_dash (d_tree (d_run ops d_init)) (d_det (d_run ops d_init)) i) = Some fi ->
+(* ---- PRE-FIX documentation (about [get_dash_prefix] / [d_run_prefix]: refreshFolderMetadata compared
+   the stored PATH STRING only): the path was current for every history, the rest was not *)
+Theorem C20_prefix_dash_tree_read_path_current : forall ops i fi cur,
+  fst (get_dash_prefix (d_tree (d_run_prefix ops d_init)) (d_det (d_run_prefix ops d_init)) i) = Some fi ->
   info_of (tree_of_writes ops) i = Some cur ->
-  fi = cur.
-Proof. exact dt_read_current_fresh_names. Qed.
-Print Assumptions C20_dash_tree_read_current_fresh_names.
+  fi_path fi = fi_path cur.
+Proof. exact dt_prefix_read_path_current. Qed.
+Print Assumptions C20_prefix_dash_tree_read_path_current.
 
-Theorem C20_dash_tree_hist_ok_satisfiable :
-  hist_ok [] [] wit_ok = true /\
-  n_get 3 (d_det (d_run wit_ok d_init)) <> info_of (tree_of_writes wit_ok) 3 /\
-  fst (get_dash (d_tree (d_run wit_ok d_init)) (d_det (d_run wit_ok d_init)) 3) = info_of (tree_of_writes wit_ok) 3.
-Proof. exact dt_hist_ok_satisfiable. Qed.
-Print Assumptions C20_dash_tree_hist_ok_satisfiable.
-
-(* (3) any history: after a save (or the creation) of the dashboard, with any reads / listings /
-   restarts after it, the read returns exactly what the tree determines *)
-Theorem C20_dash_tree_read_current_after_save : forall ops0 i nm p reads fi cur,
-  forallb is_read reads = true ->
-  let s := d_run (ops0 ++ UpdDash i nm p :: reads) d_init in
-  fst (get_dash (d_tree s) (d_det s) i) = Some fi ->
-  info_of (d_tree s) i = Some cur ->
-  fi = cur.
-Proof. exact dt_get_after_save_current. Qed.
-Print Assumptions C20_dash_tree_read_current_after_save.
-
-Theorem C20_dash_tree_read_current_after_create : forall ops0 i nm p reads fi cur,
-  forallb is_read reads = true ->
-  let s := d_run (ops0 ++ MkDash i nm p :: reads) d_init in
-  fst (get_dash (d_tree s) (d_det s) i) = Some fi ->
-  info_of (d_tree s) i = Some cur ->
-  fi = cur.
-Proof. exact dt_get_after_create_current. Qed.
-Print Assumptions C20_dash_tree_read_current_after_create.
-
-(* refuted: folder x > folder p > dashboard D; x renamed y; a NEW folder x; p moved into it: same path
-   string "x/p", the read still returns the breadcrumb of the OLD folder (names without '/') *)
-Theorem C20_dash_tree_read_breadcrumbs_refuted :
+(* folder x > folder p > dashboard D; x renamed y; a NEW folder x; p moved into it: same path string
+   "x/p", the read returned the breadcrumb of the OLD folder (names without '/') *)
+Theorem C20_prefix_dash_tree_read_breadcrumbs_refuted :
   exists ops i fi cur,
     forallb (fun o => forallb slash_free (names_of_op o)) ops = true /\
-    fst (get_dash (d_tree (d_run ops d_init)) (d_det (d_run ops d_init)) i) = Some fi /\
+    fst (get_dash_prefix (d_tree (d_run_prefix ops d_init)) (d_det (d_run_prefix ops d_init)) i) = Some fi /\
     info_of (tree_of_writes ops) i = Some cur /\
     fi_path fi = fi_path cur /\ fi_crumbs fi <> fi_crumbs cur.
-Proof. exact dt_get_crumbs_refuted. Qed.
-Print Assumptions C20_dash_tree_read_breadcrumbs_refuted.
+Proof. exact dt_prefix_read_breadcrumbs_refuted. Qed.
+Print Assumptions C20_prefix_dash_tree_read_breadcrumbs_refuted.
 
-(* refuted: X > "a/b" > D; X renamed "X/a", "a/b" renamed "b": the read still says folder name "a/b" *)
-Theorem C20_dash_tree_read_folder_name_refuted :
+(* X > "a/b" > D; X renamed "X/a", "a/b" renamed "b": the read still said folder name "a/b" *)
+Theorem C20_prefix_dash_tree_read_folder_name_refuted :
   exists ops i fi cur,
-    fst (get_dash (d_tree (d_run ops d_init)) (d_det (d_run ops d_init)) i) = Some fi /\
+    fst (get_dash_prefix (d_tree (d_run_prefix ops d_init)) (d_det (d_run_prefix ops d_init)) i) = Some fi /\
     info_of (tree_of_writes ops) i = Some cur /\
     fi_path fi = fi_path cur /\ fi_name fi <> fi_name cur.
-Proof. exact dt_get_name_refuted. Qed.
-Print Assumptions C20_dash_tree_read_folder_name_refuted.
+Proof. exact dt_prefix_read_folder_name_refuted. Qed.
+Print Assumptions C20_prefix_dash_tree_read_folder_name_refuted.
